@@ -135,7 +135,8 @@ Fixpoint keys_from (fuel : nat) (a : list N) (st : N * bool) (rev_key : list N) 
         let here := match value_at a st with Some v => [(rev rev_key, v)] | None => [] end in
         match concat_opt (map (fun k => match step a (fst st) k with
                                         | None => Some []
-                                        | Some st' => keys_from f a st' (k :: rev_key)
+                                        | Some st' => if fst st' =? fst st then None   (* a self-loop: infinitely many walks *)
+                                                      else keys_from f a st' (k :: rev_key)
                                         end) all_bytes) with
         | None => None
         | Some r => Some (here ++ r)
